@@ -27,8 +27,8 @@ CHECKS = {
         "template and two-step equations of state over five decades of units, all three "
         "branches, with corner emphasis (slow walls, c_b, both sides of vJ). Held on the "
         "executions observed, except for the listed known finding.",
-        "closed-form p, p', p'' of the analytic EOS; traced potentials are observed only "
-        "passively in the manager workloads",
+        "closed-form p, p', p'' of the analytic EOS; for traced potentials the fluxes are formed "
+        "here from p, p', p'' of the manager's own Thermodynamics object",
         "DESIGN.md §4 C02, §5 F6"),
     "C03": (
         "reference-model monitor: every deflagration/hybrid matching returned by the real "
